@@ -1,3 +1,5 @@
+import ast
+
 import pyparsing
 from miasm.expression.expression import ExprInt, ExprId, ExprLoc, ExprSlice, \
     ExprMem, ExprCond, ExprCompose, ExprOp, ExprAssign, LocKey
@@ -35,11 +37,15 @@ T_INF = pyparsing.Suppress("<")
 T_SUP = pyparsing.Suppress(">")
 
 
-string_quote = pyparsing.QuotedString(quoteChar="'", escChar='\\', escQuote='\\')
-string_dquote = pyparsing.QuotedString(quoteChar='"', escChar='\\', escQuote='\\')
+# A string is a Python string literal, as produced by repr(): decode it the same
+# way Python does (escaped quotes, backslashes, \n, \x.., ...)
+string_quote = pyparsing.Regex(r"'(?:[^'\\\n]|\\.)*'")
+string_dquote = pyparsing.Regex(r'"(?:[^"\\\n]|\\.)*"')
 
 
-string = string_quote | string_dquote
+string = (string_quote | string_dquote).setParseAction(
+    lambda t: ast.literal_eval(t[0])
+)
 
 expr = pyparsing.Forward()
 
